@@ -451,6 +451,15 @@ func (f featSet) modsFeat(m *mods, scope string) {
 			f["written:modify-group-reference-then-inline"] = true
 		}
 	}
+	nrcpt := 0
+	for _, t := range m.effective() {
+		if !t.sender {
+			nrcpt++
+		}
+	}
+	if nrcpt >= 2 {
+		f["rewrite:"+scope+":several-replace_rcpt"] = true
+	}
 	for _, t := range m.effective() {
 		if t.named {
 			f["written:rewrite-table-reference"] = true
